@@ -352,6 +352,12 @@ def check_C09(tier, seed, replay=None):
                             [("opt", "pairs", 150000), ("opt", "", 20000), ("opt", "bin", 20000), ("opt", "deep", 10000)], corr=corr)
 
 
+def check_C10(tier, seed, replay=None):
+    corr = _corr_generic("distcases", "C10", "Dist.opt_distribute vs the AST produced by the real DistributedExecutionOptimizer (1..3 engines)", 150, 1500)
+    return ref_family_check("C10", tier, seed, [("dist", "", 1500), ("dist", "agg", 1200), ("dist", "range", 500)],
+                            [("dist", "", 30000), ("dist", "agg", 30000), ("dist", "range", 10000), ("dist", "noties", 10000)], corr=corr)
+
+
 def check_C07(tier, seed, replay=None):
     return ref_family_check("C07", tier, seed,
                             [("instants", "nostartend", 1500), ("instants", "range", 400)],
@@ -370,4 +376,4 @@ def check_C19(tier, seed, replay=None):
                             [("wf", "", 60000), ("wf", "bin", 30000), ("wf", "func", 20000), ("wf", "deep", 20000)])
 
 
-CHECKS = {"C08": check_C08, "C02": check_C02, "C03": check_C03, "C07": check_C07, "C11": check_C11, "C19": check_C19, "C16": check_C16, "C09": check_C09}
+CHECKS = {"C08": check_C08, "C02": check_C02, "C03": check_C03, "C07": check_C07, "C11": check_C11, "C19": check_C19, "C16": check_C16, "C09": check_C09, "C10": check_C10}
